@@ -198,8 +198,46 @@ FINDINGS = [
 ]
 
 
+MULTI = ["C60-", "C60--", "C60---", "C60+", "C60++", "O--", "O-", "S--", "Si+++", "Si++", "He++", "H-", "GRAIN0--", "GRAIN0++"]
+
+
+def alias_sweep(res, model):
+    """every (base, charge, phase) combination: alias against the model; distinct species must get distinct identifiers"""
+    bases = ["H", "C60", "Si", "CO", "He", "HCO", "H2O", "Mg", "oH2", "C2H5OH", "GRAIN0"]
+    names = []
+    for b in bases:
+        for ch in range(-4, 5):
+            names.append(b + ("+" * ch if ch > 0 else "-" * (-ch)))
+        if b != "GRAIN0":
+            names.append("#" + b)
+    names += ["e-", "E", "e", "E-"]
+    reset_globals()
+    objs = [Species(n) for n in names]
+    aliases = [o.alias for o in objs]
+    case = {"kind": "c09-alias-sweep"}
+    if model is not None:
+        e = model.call("idx.emit", *DEFAULT_T, names)
+        for n, a, m in zip(names, aliases, e[0]):
+            if a != m:
+                res.corr_disagreements += 1
+                res.violation("correspondence", f"alias of {n!r}: implementation {a!r}, model {m!r}", dict(case, name=n))
+    seen = {}
+    for n, o, a in zip(names, objs, aliases):
+        if not IDENT.match("IDX_" + a):
+            res.violation("oracle", f"identifier IDX_{a} of {n!r} is not legal", dict(case, name=n))
+        if a in seen and not (seen[a][1] == o):
+            res.violation("oracle", f"distinct species {seen[a][0]!r} and {n!r} share the identifier IDX_{a}", dict(case, names=[seen[a][0], n]))
+        seen.setdefault(a, (n, o))
+        res.case(("c09-alias", n), nontrivial=True)
+    res.count("alias sweep names", len(names))
+
+
 def gen_desc(rng, size):
     desc = ol.gen_network(rng, size, grains=True)
+    if rng.random() < 0.4:
+        # multiply charged ions of both signs
+        extra = rng.sample(MULTI, rng.randint(2, 4))
+        desc["reactions"] = list(desc["reactions"]) + [([extra[0], "e-"], [extra[1]])] + [([x], [extra[0]]) for x in extra[2:]]
     # one spelling of the grain per network (two spellings are the known finding)
     def fix(x):
         return "GRAIN0" if x == "GRAIN" else x
@@ -221,6 +259,7 @@ def run(res, info):
     n = 300 if res.tier == "quick" else 5000
     nb = 25 if res.tier == "quick" else 300
     nc = 2 if res.tier == "quick" else 12
+    alias_sweep(res, model)
     for i, d in enumerate(FIXED):
         check_net(res, model, d, ("fixed", i), render=True, cli=(i in (3, 4)))
     for kind, d in FINDINGS:
